@@ -20,3 +20,5 @@ def run(prog, rep):
     _rs.run_stale_size(prog, rep)
     from ..rules import r_key as _rkx
     _rkx.run_handles_only(prog, rep)
+    from ..rules import r_io as _rio7
+    _rio7.run_swapped(prog, rep)
